@@ -12,7 +12,7 @@ From Coq Require Import ZifyBool.
 Lemma rec_mod_older_noop : forall t k, t <= lmt k -> rec_mod t k = (k, false).
 Proof. intros t k H. unfold rec_mod. destruct (t <=? lmt k) eqn:E; [reflexivity|lia]. Qed.
 
-Lemma rec_mod_newer : forall t k, lmt k < t -> rec_mod t k = (mkTrk t (ncnt k + 1), true).
+Lemma rec_mod_newer : forall t k, lmt k < t -> rec_mod t k = (mkTrk t (ncnt k + 1) t, true).
 Proof. intros t k H. unfold rec_mod. destruct (t <=? lmt k) eqn:E; [lia|reflexivity]. Qed.
 
 Lemma rec_mod_coalesces : forall t k, rec_mod t (fst (rec_mod t k)) = (fst (rec_mod t k), false).
@@ -327,7 +327,7 @@ Lemma inv_tree_fix : forall t k fk b kids,
   inv_tree t (Fix k fk b kids) =
   if lmt k =? MIN_DT then (Fix k fk b kids, false, false)
   else let '(k', bits', kids') := inv_kids (inv_tree t) t fk 0%nat k b kids in
-       (Fix (mkTrk MIN_DT (ncnt k' + 1)) fk bits' kids', true, true).
+       (Fix (mkTrk MIN_DT (ncnt k' + 1) t) fk bits' kids', true, true).
 Proof. reflexivity. Qed.
 
 Lemma all_min_below_invalid : forall x tb, mono x -> bounded tb x -> lmt_of x = MIN_DT -> forall q, lmt_at x q = MIN_DT.
@@ -461,7 +461,7 @@ Definition boundedL (t : Z) (L : path -> Z) : Prop := forall q, MIN_DT <= L q <=
 
 Lemma spec_step_bounded : forall t now o L, boundedL now L -> now <= t -> MIN_DT <= t -> boundedL t (spec_step t o L).
 Proof.
-  intros t now o L Hb Hn Ht q. pose proof (Hb q) as Hq. destruct o as [p v|p|p vt|p key|p key]; cbn [spec_step]; try lia.
+  intros t now o L Hb Hn Ht q. pose proof (Hb q) as Hq. destruct o as [p v|p|p vt|p key|p key|p v]; cbn [spec_step]; try lia.
   - destruct (prefixb q p); lia.
   - destruct (L p =? MIN_DT); [lia|]. destruct (prefixb p q); [lia|]. destruct (prefixb q p); lia.
 Qed.
@@ -469,7 +469,7 @@ Qed.
 Lemma spec_step_mono : forall t now o L, monoL L -> boundedL now L -> now <= t -> MIN_DT <= t -> monoL (spec_step t o L).
 Proof.
   intros t now o L Hm Hb Hn Ht q i. pose proof (Hm q i) as Hqi. pose proof (Hb q) as Hbq. pose proof (Hb (q ++ [i])) as Hbqi.
-  destruct o as [p v|p|p vt|p key|p key]; cbn [spec_step]; try lia.
+  destruct o as [p v|p|p vt|p key|p key|p v]; cbn [spec_step]; try lia.
   - destruct (prefixb (q ++ [i]) p) eqn:E1.
     + rewrite (prefixb_snoc_l _ _ _ E1). lia.
     + destruct (prefixb q p); lia.
@@ -630,7 +630,7 @@ Lemma step_spec : forall t now o s,
   r_err r = 0 /\ (forall q, skel (r_tree r) q = skel s q) /\
   (forall q, lmt_at (r_tree r) q = spec_step t o (lmt_at s) q).
 Proof.
-  intros t now o s Hfx Hm Hb Ht Hn Hty. destruct o as [p v|p|p vt|p key|p key]; cbn [typed] in Hty; try contradiction.
+  intros t now o s Hfx Hm Hb Ht Hn Hty. destruct o as [p v|p|p vt|p key|p key|p v]; cbn [typed] in Hty; try contradiction.
   - eapply step_set_spec; eassumption.
   - eapply step_inv_spec; eassumption.
 Qed.
@@ -787,7 +787,7 @@ Proof.
   induction rh as [|[t0 o] rh IH]; intros q t H Ht; cbn [last_write_rev] in H; [congruence|].
   assert (Hrec : last_write_rev rh q = t -> exists o0, In (t, o0) ((t0, o) :: rh) /\ concerns o0 q = true).
   { intros H'. destruct (IH q t H' Ht) as (o0 & Hin & Hc). exists o0. split; [right; exact Hin|exact Hc]. }
-  destruct o as [p v|p|p vt|p key|p key]; cbn [spec_step] in H; try (apply Hrec; exact H).
+  destruct o as [p v|p|p vt|p key|p key|p v]; cbn [spec_step] in H; try (apply Hrec; exact H).
   - destruct (prefixb q p) eqn:E; [|apply Hrec; exact H].
     subst t0. exists (OSet p v). split; [left; reflexivity|exact E].
   - destruct (last_write_rev rh p =? MIN_DT); [apply Hrec; exact H|].
@@ -802,7 +802,7 @@ Proof.
   induction rh as [|[t0 o] rh IH]; intros tmax q H0 H; cbn [last_write_rev]; [lia|].
   assert (Ht0 : t0 <= tmax) by (apply (H (t0, o)); left; reflexivity).
   assert (Hr : forall q', last_write_rev rh q' <= tmax) by (intros q'; apply IH; [exact H0|intros e He; apply H; right; exact He]).
-  pose proof (Hr q). destruct o as [p v|p|p vt|p key|p key]; cbn [spec_step]; try assumption.
+  pose proof (Hr q). destruct o as [p v|p|p vt|p key|p key|p v]; cbn [spec_step]; try assumption.
   - destruct (prefixb q p); lia.
   - destruct (last_write_rev rh p =? MIN_DT); [lia|]. destruct (prefixb p q); [lia|]. destruct (prefixb q p); lia.
 Qed.
@@ -860,7 +860,7 @@ Proof.
   { intros H' Hsame. destruct (IH q t Hleaf' H' Ht) as [[i Hi]|(p & Hin & Hs)].
     - left. exists i. cbn [last_write_rev]. rewrite Hsame. exact Hi.
     - right. exists p. split; [right; exact Hin|exact Hs]. }
-  destruct o as [p v|p|p vt|p key|p key]; cbn [spec_step] in H; try (apply Hrec; [exact H|reflexivity]).
+  destruct o as [p v|p|p vt|p key|p key|p v]; cbn [spec_step] in H; try (apply Hrec; [exact H|reflexivity]).
   - destruct (prefixb q p) eqn:E.
     + subst t0. assert (Hne : q <> p) by (intros ->; apply (Hleaf t p v); [left; reflexivity|reflexivity]).
       destruct (prefixb_strict_child q p E Hne) as [i Hi]. left. exists i. cbn [last_write_rev spec_step]. rewrite Hi. reflexivity.
